@@ -57,7 +57,7 @@ PARTS = [_assume(p) for p in u_xns.PARTS[:-1]] + [
     Prelude('xtb.prelude.rs'),
     Item(TB, 'fn', 'current_node', qname='current_node'),
     Item(TB, 'fn', 'new', impl='XmlTreeBuilder', wrap='impl XmlTreeBuilder', qname='XmlTreeBuilder::new'),
-] + [tb(n) for n in FNS] + [
+] + [tb(n, optional=(n in ('current_node_in', 'no_open_elems', 'tag_in_open_elems', 'append_tag_to_doc', 'add_to_open_elems'))) for n in FNS] + [
     Raw('} // verus!\nfn main() {}'),
 ]
 DROPS = ['XmlTreeBuilder::new, process_token (token conversion), end (a drain loop) and the TokenSink / tracing plumbing are not extracted',
